@@ -1,12 +1,465 @@
-/-! Executable model for property C01 (core-only).  Not built yet: the driver answers
-    `unimplemented` so that a check of this property cannot pass by accident. -/
+import FpgoVerif.Model.C01Maybe
+/-! C01 — line protocol over the model of `Model/C01Maybe.lean`: token decoding, canonical rendering, the
+    operation interpreter (`handle`) and the spec-level oracle (`judge`).
+    Case line:  `<ctor> <ty> <value> <fallback>: <op> ; <op> ; …`   (see harness/c01.go). -/
+
 namespace FpgoVerif.C01
 
-/-- one protocol case line in, one canonical observation line out -/
-def handle (_line : String) : String := "unimplemented"
+local notation "Heap" => List GoVal
 
-/-- spec-level oracle: given the case line and the observation printed by the real code, decide
-    whether the *property* is violated (`violation <why>`) or not (`allowed <why>`). -/
-def judge (_line _impl : String) : String := "violation model-and-implementation-disagree"
+/-! ### names -/
+
+def intKName : IntK → String
+  | .int => "i" | .int8 => "i8" | .int16 => "i16" | .int32 => "i32" | .int64 => "i64"
+  | .uint => "u" | .uint8 => "u8" | .uint16 => "u16" | .uint32 => "u32" | .uint64 => "u64" | .uintptr => "up"
+
+def intKOfName? : String → Option IntK
+  | "i" => some .int | "i8" => some .int8 | "i16" => some .int16 | "i32" => some .int32 | "i64" => some .int64
+  | "u" => some .uint | "u8" => some .uint8 | "u16" => some .uint16 | "u32" => some .uint32 | "u64" => some .uint64
+  | "up" => some .uintptr | _ => none
+
+def tyName : Ty → String
+  | .bool => "b" | .int k => intKName k | .f32 => "f32" | .f64 => "f64" | .string => "s" | .struct => "st"
+  | .c64 => "c64" | .c128 => "c128" | .array => "ar" | .unsafePtr => "usp"
+  | .slice => "sl" | .map => "mp" | .func => "fn" | .chan => "ch" | .ptr t => "p:" ++ tyName t | .any => "any"
+  | .maybe t => "M:" ++ tyName t | .someDef t => "some:" ++ tyName t | .noneDef => "noneDef"
+
+/-- type name → type, from the `:`-separated components -/
+def tyOfParts : List String → Option Ty
+  | [] => none
+  | ["c64"] => some .c64 | ["c128"] => some .c128 | ["ar"] => some .array | ["usp"] => some .unsafePtr
+  | ["b"] => some .bool | ["f32"] => some .f32 | ["f64"] => some .f64 | ["s"] => some .string | ["st"] => some .struct
+  | ["sl"] => some .slice | ["mp"] => some .map | ["fn"] => some .func | ["ch"] => some .chan | ["any"] => some .any
+  | [x] => (intKOfName? x).map Ty.int
+  | "p" :: rest => (tyOfParts rest).map Ty.ptr
+  | "M" :: rest => (tyOfParts rest).map Ty.maybe
+  | _ => none
+
+def tyOfName? (s : String) : Option Ty := tyOfParts (s.splitOn ":")
+
+def goKindName : Kind → String
+  | .invalid => "invalid" | .bool => "bool"
+  | .int .int => "int" | .int .int8 => "int8" | .int .int16 => "int16" | .int .int32 => "int32" | .int .int64 => "int64"
+  | .int .uint => "uint" | .int .uint8 => "uint8" | .int .uint16 => "uint16" | .int .uint32 => "uint32"
+  | .int .uint64 => "uint64" | .int .uintptr => "uintptr"
+  | .c64 => "complex64" | .c128 => "complex128" | .array => "array" | .unsafePtr => "unsafe.Pointer"
+  | .f32 => "float32" | .f64 => "float64" | .string => "string" | .struct => "struct" | .slice => "slice"
+  | .map => "map" | .func => "func" | .chan => "chan" | .ptr => "ptr" | .iface => "interface"
+
+def allKinds : List Kind :=
+  [.invalid, .bool, .int .int, .int .int8, .int .int16, .int .int32, .int .int64, .int .uint, .int .uint8, .int .uint16,
+   .int .uint32, .int .uint64, .int .uintptr, .f32, .f64, .c64, .c128, .array, .unsafePtr, .string, .struct, .slice, .map, .func, .chan, .ptr, .iface]
+
+def kindOfName? (s : String) : Option Kind := allKinds.find? (fun k => goKindName k == s)
+
+/-! ### decoding value tokens -/
+
+def inner (tok : String) (pre : Nat) : String := ((tok.drop pre).dropEnd 1).toString
+
+/-- static type of a value token -/
+def tokTy : Nat → String → Option Ty
+  | 0, _ => none
+  | f + 1, tok =>
+    if tok == "nil" then some .any
+    else if tok == "none" || tok.startsWith "just(" || tok.startsWith "ja(" then some (.maybe .any)
+    else if tok.startsWith "jg(" then (tokTy f (inner tok 3)).map Ty.maybe
+    else if tok.startsWith "pa(" then some (.ptr .any)
+    else if tok.startsWith "p(" then (tokTy f (inner tok 2)).map Ty.ptr
+    else if tok.startsWith "np:" then (tyOfName? (tok.drop 3).toString).map Ty.ptr
+    else match tok.splitOn ":" with
+      | x :: _ => tyOfName? x
+      | _ => none
+
+def payload (tok : String) : String :=
+  match tok.splitOn ":" with
+  | _ :: p :: _ => p
+  | _ => ""
+
+/-- token → value (allocating pointees); nested Maybe tokens are built with the model's own constructors -/
+def decode : Nat → Heap → String → R (Heap × GoVal)
+  | 0, _, _ => throw "decode: out of fuel"
+  | f + 1, h, tok =>
+    if tok == "nil" then pure (h, .nil)
+    else if tok == "none" then pure (h, .none)
+    else if tok.startsWith "just(" then do
+      let (h, v) ← decode f h (inner tok 5)
+      let m ← just v
+      pure (h, m.toVal)
+    else if tok.startsWith "ja(" then do
+      let (h, v) ← decode f h (inner tok 3)
+      let m ← justGenerics .any v
+      pure (h, m.toVal)
+    else if tok.startsWith "jg(" then do
+      let (h, v) ← decode f h (inner tok 3)
+      match tokTy (f + 1) (inner tok 3) with
+      | some T =>
+        let m ← justGenerics T v
+        pure (h, m.toVal)
+      | none => throw "decode: bad type"
+    else if tok.startsWith "pa(" then do
+      let (h, v) ← decode f h (inner tok 3)
+      pure (h ++ [v], .ptr .any (some h.length))
+    else if tok.startsWith "p(" then do
+      let (h, v) ← decode f h (inner tok 2)
+      match tokTy (f + 1) (inner tok 2) with
+      | some t => pure (h ++ [v], .ptr t (some h.length))
+      | none => throw "decode: bad type"
+    else if tok.startsWith "np:" then
+      match tyOfName? (tok.drop 3).toString with
+      | some t => pure (h, .ptr t none)
+      | none => throw "decode: bad type"
+    else
+      let p := payload tok
+      match (tok.splitOn ":").head? with
+      | some "b" => pure (h, .bool (p == "1"))
+      | some "f32" => pure (h, .f32 (p.drop 1).toString)
+      | some "f64" => pure (h, .f64 (p.drop 1).toString)
+      | some "s" => pure (h, .str (p.drop 1).toString)
+      | some "st" => pure (h, .struct p.toInt!)
+      | some "c64" => pure (h, .c64 p.toInt!)
+      | some "c128" => pure (h, .c128 p.toInt!)
+      | some "ar" => pure (h, .array p.toInt!)
+      | some "usp" => pure (h, .unsafePtr (if p == "nil" then none else some p.toInt!))
+      | some "sl" => pure (h, .slice (if p == "nil" then .nil else if p == "e" then .empty else .elems p.toInt!))
+      | some "mp" => pure (h, .map (if p == "nil" then none else some p.toInt!))
+      | some "fn" => pure (h, .func (if p == "nil" then none else some p.toInt!))
+      | some "ch" => pure (h, .chan (if p == "nil" then none else some p.toInt!))
+      | some k =>
+        match intKOfName? k with
+        | some ik => pure (h, .int ik p.toInt!)
+        | none => throw "decode: bad token"
+      | none => throw "decode: bad token"
+
+/-! ### canonical rendering (identical to harness/c01.go) -/
+
+def bstr (b : Bool) : String := if b then "t" else "f"
+
+def render (h : Heap) : Nat → GoVal → String
+  | 0, _ => "?fuel"
+  | f + 1, v =>
+    match v with
+    | .nil => "nil"
+    | .bool b => if b then "b:1" else "b:0"
+    | .int k n => intKName k ++ ":" ++ toString n
+    | .f32 b => "f32:x" ++ b
+    | .f64 b => "f64:x" ++ b
+    | .str hx => "s:x" ++ hx
+    | .struct k => "st:" ++ toString k
+    | .c64 k => "c64:" ++ toString k
+    | .c128 k => "c128:" ++ toString k
+    | .array k => "ar:" ++ toString k
+    | .unsafePtr none => "usp:nil"
+    | .unsafePtr (some k) => "usp:" ++ toString k
+    | .slice .nil => "sl:nil"
+    | .slice .empty => "sl:e"
+    | .slice (.elems k) => "sl:" ++ toString k
+    | .map none => "mp:nil"
+    | .map (some k) => "mp:" ++ toString k
+    | .func none => "fn:nil"
+    | .func (some k) => "fn:" ++ toString k
+    | .chan none => "ch:nil"
+    | .chan (some k) => "ch:" ++ toString k
+    | .ptr t none => "np:" ++ tyName t
+    | .ptr _ (some a) =>
+      match h[a]? with
+      | some x => "p(" ++ render h f x ++ ")"
+      | none => "p(?dangling)"
+    | .some T r n p => "M[" ++ tyName T ++ "](" ++ bstr n ++ bstr p ++ " " ++ render h f r ++ ")"
+    | .none => "None"
+
+def rnd (h : Heap) (v : GoVal) : String := render h (h.length + 64) v
+
+/-- identity of a pointer result relative to the constructor argument and the fallback / destination -/
+def ident (res v fb : GoVal) : String :=
+  match res with
+  | .ptr _ (some _) => if res = v then "same" else if res = fb then "fb" else "fresh"
+  | _ => "-"
+
+def showVal (h : Heap) (r v fb : GoVal) : String := rnd h r ++ " " ++ ident r v fb
+
+def showMaybe (h : Heap) (m : MaybeV) (v fb : GoVal) : String := rnd h m.toVal ++ " " ++ ident m.unwrap v fb
+
+/-! ### operations -/
+
+structure Env where
+  h : Heap
+  m : MaybeV
+  T : Ty
+  v : GoVal
+  fb : GoVal
+  fbtok : String
+
+abbrev L := StateT (List GoVal) R
+
+/-- the callbacks of the harness: each records its argument, then returns a Maybe -/
+def flatFn (T : Ty) (fb : GoVal) (name : String) : Option (GoVal → L MaybeV) :=
+  let rec_ (x : GoVal) : L Unit := modify (· ++ [x])
+  match name with
+  | "ret" => some fun x => do rec_ x; liftM (justGenerics T x)
+  | "k" => some fun x => do rec_ x; liftM (justGenerics T fb)
+  | "just" => some fun x => do rec_ x; liftM (just x)
+  | "none" => some fun x => do rec_ x; pure .none
+  | "nest" => some fun x => do
+      rec_ x
+      let i ← liftM (just x)
+      liftM (just i.toVal)
+  | _ => none
+where liftM {α} (r : R α) : L α := fun s => r.map (·, s)
+
+def convName? (op : String) : Bool := allConversions.contains op
+
+def splitOp (op : String) : String × String :=
+  match op.splitOn ":" with
+  | [] => ("", "")
+  | n :: rest => (n, ":".intercalate rest)
+
+def showArgs (e : Env) (log : List GoVal) : String :=
+  ",".intercalate (log.map fun x => showVal e.h x e.v e.fb)
+
+/-- result type of the harness callbacks: the returned Maybe and the log of arguments they were called with -/
+abbrev FR := MaybeV × List GoVal
+
+/-- op token → observer (`none`: not a single observer — `Assoc` — or malformed) -/
+def parseObserver (e : Env) (name arg : String) : R (Option (Heap × Observer FR)) :=
+  match name with
+  | "IsNil" => pure (some (e.h, .isNil))
+  | "IsPresent" => pure (some (e.h, .isPresent))
+  | "IsValid" => pure (some (e.h, .isValid))
+  | "IsPtr" => pure (some (e.h, .isPtr))
+  | "Kind" => pure (some (e.h, .kind))
+  | "Type" => pure (some (e.h, .type))
+  | "IsType" =>
+    if arg == "own" then pure (some (e.h, .isType (typeOf? e.v)))
+    else if arg == "nil" then pure (some (e.h, .isType none))
+    else pure ((tyOfName? arg).map fun t => (e.h, .isType (some t)))
+  | "IsKind" =>
+    if arg == "own" then pure (some (e.h, .isKind (valueOf e.v).kind))
+    else pure ((kindOfName? arg).map fun k => (e.h, .isKind k))
+  | "Or" => pure (some (e.h, .or e.fb))
+  | "Let" => pure (some (e.h, .letRun))
+  | "Unwrap" => pure (some (e.h, .unwrap))
+  | "UnwrapInterface" => pure (some (e.h, .unwrapInterface))
+  | "ToString" => pure (some (e.h, .toString))
+  | "ToPtr" => pure (some (e.h, .toPtr))
+  | "ToMaybe" => pure (some (e.h, .toMaybe))
+  | "Clone" => pure (some (e.h, .clone))
+  | "CloneTo" => do
+    -- the destination is built afresh for this call (`CloneTo` writes through it)
+    let (h0, dest) ← (if arg == "fb" then decode (e.fbtok.length + 1) e.h e.fbtok else pure (e.h, zeroOf e.T))
+    pure (some (h0, .cloneTo dest))
+  | "Just" => pure (some (e.h, .just (if arg == "v" then e.v else if arg == "fb" then e.fb else .nil)))
+  | "FlatMap" => pure ((flatFn e.T e.fb arg).map fun f => (e.h, .flatMap fun x => (f x).run []))
+  | _ => pure (if convName? name then some (e.h, .conv name) else none)
+
+def showOut (e : Env) (h : Heap) (o : Observer FR) : Out FR → String
+  | .bool b => bstr b
+  | .kind k => "K:" ++ goKindName k
+  | .type t => "T:" ++ (match t with | some t => tyName t | none => "nil")
+  | .val r => showVal h r e.v e.fb
+  | .count n => "n=" ++ toString n
+  | .str s => (match s with | some s => "S:" ++ s | none => "S:*")
+  | .ptr p =>
+    match p with
+    | .ptr _ (some a) =>
+      match h[a]? with
+      | some r => "ptr(" ++ rnd h r ++ ") " ++ ident r e.v e.fb
+      | none => "ptr(?dangling)"
+    | _ => "nilptr"
+  | .maybe r =>
+    match o with
+    | .cloneTo dest => showMaybe h r e.v dest ++ " dest=" ++ rnd h dest
+    | _ => showMaybe h r e.v e.fb
+  | .conv r => (match r with | .errNil => "errnil" | .other => "other")
+  | .res (r, log) => "c=" ++ toString log.length ++ " a=[" ++ showArgs e log ++ "] r=" ++ showMaybe h r e.v e.fb
+
+def runOp (e : Env) (op : String) : R (Env × String) := do
+  let (name, arg) := splitOp op
+  let m := e.m
+  match ← parseObserver e name arg with
+  | some (h0, o) =>
+    let (h, out) ← observe h0 m o
+    pure ({ e with h := h }, showOut e h o out)
+  | none =>
+    if name == "Assoc" then
+      match arg.splitOn ":" with
+      | [fn, gn] =>
+        match flatFn e.T e.fb fn, flatFn e.T e.fb gn with
+        | some f, some g => do
+          let (l, la) ← (do let r1 ← m.flatMap f; r1.flatMap g : L MaybeV).run []
+          let (r, ra) ← (m.flatMap (fun x => do let r1 ← f x; r1.flatMap g) : L MaybeV).run []
+          pure (e, "L=" ++ showMaybe e.h l e.v e.fb ++ " [" ++ showArgs e la ++ "] R=" ++ showMaybe e.h r e.v e.fb
+                   ++ " [" ++ showArgs e ra ++ "]")
+        | _, _ => pure (e, "bad-op")
+      | _ => pure (e, "bad-op")
+    else pure (e, "bad-op")
+
+def runOps (e : Env) : List String → List String → List String
+  | [], acc => acc.reverse
+  | op :: rest, acc =>
+    match runOp e op with
+    | .ok (e', o) => runOps e' rest (o :: acc)
+    | .error _ => runOps e rest ("panic" :: acc)
+
+structure Case where
+  ctor : String
+  c : Spec.Ctor
+  T : Ty              -- type parameter of the Maybe
+  vtok : String
+  fbtok : String
+  ops : List String
+
+def parseCase (line : String) : Option Case :=
+  match line.splitOn ": " with
+  | head :: rest =>
+    let body := ": ".intercalate rest
+    match (head.splitOn " ").filter (· ≠ "") with
+    | [ctor, ty, vtok, fbtok] =>
+      let ops := ((body.splitOn ";").map (fun t => t.trimAscii.toString)).filter (· ≠ "")
+      match ctor, tyOfName? ty with
+      | "just", some _ => some ⟨ctor, .just, .any, vtok, fbtok, ops⟩
+      | "ja", some _ => some ⟨ctor, .generics .any, .any, vtok, fbtok, ops⟩
+      | "jg", some T => some ⟨ctor, .generics T, T, vtok, fbtok, ops⟩
+      | _, _ => none
+    | _ => none
+  | _ => none
+
+def buildEnv (cs : Case) : R Env := do
+  let (h, v) ← decode (cs.vtok.length + 1) [] cs.vtok
+  let m ← mk cs.c v
+  let (h, fb) ← decode (cs.fbtok.length + 1) h cs.fbtok
+  pure ⟨h, m, cs.T, v, fb, cs.fbtok⟩
+
+/-- protocol entry point -/
+def handle (line : String) : String :=
+  match parseCase line with
+  | none => "bad-case"
+  | some cs =>
+    match buildEnv cs with
+    | .error _ => " | ".intercalate (cs.ops.map fun _ => "panic")
+    | .ok e => " | ".intercalate (runOps e cs.ops [])
+
+/-! ### spec-level oracle: the property's own statement evaluated on the decoded value -/
+
+/-- how the Maybe the property describes for `(c, v)` is printed -/
+def specShowMaybe (h : Heap) (c : Spec.Ctor) (v fb : GoVal) (identOverride : Option String) : String :=
+  let idt := identOverride.getD (ident (Spec.wrapped c v) v fb)
+  match c with
+  | .just => if Spec.absent v then "None -"
+             else "M[any](" ++ bstr false ++ bstr true ++ " " ++ rnd h v ++ ") " ++ idt
+  | .generics T => "M[" ++ tyName T ++ "](" ++ bstr (Spec.absent v) ++ bstr (!Spec.absent v) ++ " " ++ rnd h v ++ ") " ++ idt
+
+/-- The property does not fix how an absent Maybe is represented (`None`, `someDef{nil,true,false}` and
+    `someDef{(*T)(nil),true,false}` are observationally equal, `C01_absent_obsEq`): before Maybe-valued results are
+    compared, every rendering of an absent Maybe (`None`, `M[..](tf ..)`) is replaced by `ABSENT`. -/
+def skipBalanced : Nat → Nat → List Char → List Char
+  | 0, _, cs => cs
+  | _, _, [] => []
+  | f + 1, d, c :: cs =>
+    if c = '(' then skipBalanced f (d + 1) cs
+    else if c = ')' then (if d ≤ 1 then cs else skipBalanced f (d - 1) cs)
+    else skipBalanced f d cs
+
+def normAbsentL : Nat → List Char → List Char
+  | 0, cs => cs
+  | _, [] => []
+  | f + 1, 'N' :: 'o' :: 'n' :: 'e' :: cs => "ABSENT".toList ++ normAbsentL f cs
+  | f + 1, ']' :: '(' :: 't' :: 'f' :: ' ' :: cs => "]ABSENT".toList ++ normAbsentL f (skipBalanced (cs.length + 1) 1 cs)
+  | f + 1, c :: cs => c :: normAbsentL f cs
+
+/-- second pass: `M[<ty>]ABSENT` → `ABSENT` (the type parameter of an absent Maybe is not an observation) -/
+def dropTyL : Nat → List Char → List Char
+  | 0, cs => cs
+  | _, [] => []
+  | f + 1, 'M' :: '[' :: cs =>
+    let ty := cs.takeWhile (· ≠ ']')
+    let rest := cs.dropWhile (· ≠ ']')
+    if "]ABSENT".toList.isPrefixOf rest then dropTyL f (rest.drop 1) else 'M' :: '[' :: dropTyL f cs
+  | f + 1, c :: cs => c :: dropTyL f cs
+
+def normAbsent (s : String) : String :=
+  String.ofList (dropTyL (s.length + 1) (normAbsentL (s.length + 1) s.toList))
+
+/-- observations of an op the property accepts (`none`: the property only demands "no panic");
+    the flag says whether Maybe renderings are compared up to the representation of absence -/
+def specObs (e : Env) (c : Spec.Ctor) (op : String) : Option (List String × Bool) :=
+  let (name, arg) := splitOp op
+  let v := e.v
+  let ab := Spec.absent v
+  match name with
+  | "IsNil" => some ([bstr (Spec.isNil v)], false)
+  | "IsPresent" => some ([bstr (Spec.isPresent v)], false)
+  | "Or" => some ([showVal e.h (Spec.or v e.fb) v e.fb], true)
+  | "Let" => some (["n=" ++ toString (Spec.letCount v)], false)
+  | "UnwrapInterface" => some ([showVal e.h (Spec.unwrapInterface v) v e.fb], true)
+  | "Type" =>
+    -- a nested Maybe given as `v` was built by the library itself: its concrete struct type (noneDef / someDef[T])
+    -- is a representation choice, only "not the nil Type" is demanded there
+    match asMaybe? v with
+    | some _ => some (["T:noneDef", "T:some:any", "T:" ++ (match Spec.type v with | some t => tyName t | none => "nil")], false)
+    | none => some (["T:" ++ (match Spec.type v with | some t => tyName t | none => "nil")], false)
+  | "ToString" => if ab then some (["S:" ++ Spec.nilString], false) else none
+  | "ToMaybe" =>
+    if ab then some ([specShowMaybe e.h c v e.fb none], true)
+    else match Spec.innerMaybe? c.param v with
+      | some m' => some ([showMaybe e.h m' v e.fb], true)
+      | none => some ([specShowMaybe e.h c v e.fb none], true)
+  | "Clone" =>
+    match v with
+    | .ptr _ (some _) => some ([specShowMaybe e.h c v e.fb (some "fresh")], true)
+    | _ => some ([specShowMaybe e.h c v e.fb none], true)
+  | "FlatMap" =>
+    match flatFn c.param e.fb arg with
+    | none => none
+    | some f =>
+      -- the wrapped value; for `Maybe.Just` of a typed nil pointer the property leaves open whether that is the
+      -- typed nil itself or the untyped nil (the code: `None`, i.e. the untyped nil)
+      let ws := if Spec.wrapped c v = v then [v] else [Spec.wrapped c v, v]
+      some (ws.filterMap (fun w =>
+        match (f w).run [] with
+        | .ok (r, log) => some ("c=1 a=[" ++ showArgs e log ++ "] r=" ++ showMaybe e.h r v e.fb)
+        | .error _ => none), true)
+  | _ =>
+    if convName? name then some ([match Spec.conv v with | .errNil => "errnil" | .other => "other"], false) else none
+
+def assocAgrees (obs : String) : Bool :=
+  match obs.splitOn " R=" with
+  | [l, r] => l == "L=" ++ r
+  | _ => false
+
+def judgeOps (e : Env) (c : Spec.Ctor) : List String → List String → Option String
+  | [], _ => none
+  | _ :: _, [] => some "fewer observations than operations"
+  | op :: ops, o :: obs =>
+    if o == "panic" || o == "hang" || o == "crash" then some (op ++ ": observer panicked (no observer may panic for any v)")
+    else
+      let bad :=
+        if (splitOp op).1 == "Assoc" then
+          if assocAgrees o then none else some (op ++ ": m.FlatMap(f).FlatMap(g) and m.FlatMap(x => f(x).FlatMap(g)) differ: " ++ o)
+        else match specObs e c op with
+          | some (exps, upToAbsent) =>
+            let nrm := fun (s : String) => if upToAbsent then normAbsent s else s
+            if exps.any (fun exp => nrm exp == nrm o) then none
+            else some (op ++ ": property demands '" ++ " or ".intercalate exps ++ "', implementation gave '" ++ o ++ "'")
+          | none => none
+      match bad with
+      | some b => some b
+      | none =>
+        -- keep the model's heap in step (Clone/ToPtr allocate); the spec itself only reads `v`'s pointees
+        match runOp e op with
+        | .ok (e', _) => judgeOps e' c ops obs
+        | .error _ => judgeOps e c ops obs
+
+def judge (line impl : String) : String :=
+  match parseCase line with
+  | none => "violation bad-case"
+  | some cs =>
+    match buildEnv cs with
+    | .error _ => "violation model cannot build the value"
+    | .ok e =>
+      if impl == "hang" || impl == "crash" then "violation the case did not complete: " ++ impl
+      else
+        match judgeOps e cs.c cs.ops (impl.splitOn " | ") with
+        | some why => "violation " ++ why
+        | none => "allowed every observer named by the property agrees with absent(v); the difference is outside the property"
 
 end FpgoVerif.C01
